@@ -1,4 +1,5 @@
 import PyemvGen.Mod.Common
+import PyemvProps.C01
 import PyemvGen.Mod.mac_mac3
 namespace Pyemv.ModRefines
 open Pyemv Pyemv.Gen
@@ -11,5 +12,13 @@ theorem ac_generate_ac (sk d : Bytes) (pt : Option PaddingType) (l : Option Nat)
     cases hp : pt.getD .emv <;> simp [hp, throw, throwThe, MonadExceptOf.throw] <;>
       (cases mac3 (sk.take 8) (lastN 8 sk) d _ l <;> rfl)
   · simp [h, bind, Except.bind, throw, throwThe, MonadExceptOf.throw]
+
+/-- **C01 about the translated source**: the application cryptogram computed by `ac.generate_ac` as it stands in
+the repository is the leftmost bytes of ISO 9797-1 Algorithm 3 over the padded data. -/
+theorem source_generate_ac (sk data : Bytes) (pt : Option PaddingType) (len : Option Nat)
+    (hsk : sk.length = 16) (hpt : pt ≠ some .other) :
+    Gen.ac.generate_ac sk data pt len =
+      .ok ((Spec.alg3 (sk.take 8) (sk.drop 8) (Spec.padFor (pt.getD .emv) data)).take (len.getD 8)) := by
+  rw [ac_generate_ac]; exact C01.generate_ac_eq_spec sk data pt len hsk hpt
 
 end Pyemv.ModRefines
